@@ -186,7 +186,7 @@ SET_PTR = {("RSNEAPOL", "key_iv"): 16, ("RSNEAPOL", "nonce"): 32, ("RSNEAPOL", "
 # setters whose getter has another name
 GETTER_OF = {("VXLAN", "set_flags"): "get_flags", ("VXLAN", "set_vni"): "get_vni"}
 EXTRA_SET = {  # invisible to the scan (tabs / inline bodies): (name, type, kind)
-    "LLC": [("dsap", "uint8_t", "S"), ("ssap", "uint8_t", "S"), ("group", "bool", "S"), ("response", "bool", "S")],
+    "LLC": [("dsap", "uint8_t", "S"), ("ssap", "uint8_t", "S"), ("group", "bool", "S"), ("response", "bool", "S")],  # type/send_seq_number/receive_seq_number/poll_final depend on the frame format: C15 checks them in a dedicated LLC block
     "VXLAN": [("set_flags", "uint8_t", "S"), ("set_vni", "small_uint<24>", "S")],
     "RTP": [("version", "small_uint<2>", "S"), ("extension_bit", "small_uint<1>", "S"), ("marker_bit", "small_uint<1>", "S"),
             ("payload_type", "small_uint<7>", "S"), ("sequence_number", "uint16_t", "S"), ("timestamp", "uint32_t", "S"),
